@@ -6,7 +6,7 @@ open AsyncsshModel AsyncsshModel.Lifecycle
 
 def excName : Exc → String
   | .clean => "None" | .connLost => "ConnectionLost" | .proto => "ProtocolError"
-  | .byApp => "DisconnectByApplication" | .reset => "OSError" | .value => "ValueError"
+  | .byApp => "DisconnectError" | .reset => "OSError" | .value => "ValueError"
   | .assertion => "AssertionError" | .attr => "AttributeError"
 
 def kindName : ReqKind → String
@@ -87,7 +87,7 @@ def showSys (y : Sys) : String :=
 
 def parseExc : String → Exc
   | "None" => .clean | "ConnectionLost" => .connLost | "ProtocolError" => .proto
-  | "DisconnectByApplication" => .byApp | "OSError" => .reset | "ValueError" => .value
+  | "DisconnectError" => .byApp | "OSError" => .reset | "ValueError" => .value
   | "AssertionError" => .assertion | _ => .attr
 
 def resName : Waiters.Res → String
@@ -176,7 +176,7 @@ def step (d : DState) (ws : List String) : DState × String :=
   | ["sf", "reply", i] => ({ d with sf := Waiters.sftpReply d.sf i.toNat! }, "ok")
   | ["sf", "lost", e] =>
     -- the handler's `recv_packets` task sits in `readexactly(4)` on stdout when the channel goes away
-    let st0 := if d.st.reader0.isSome then d.st else d.st.step (.read 0 4 true)
+    let st0 := if d.st.reader0.isSome ∨ d.sf.readerAlive = false then d.st else d.st.step (.read 0 4 true)
     let (st, sf) := Waiters.sftpOnChannelLost st0 d.sf (parseExc e)
     ({ d with st := st, sf := sf }, "ok")
   | ["sf", "show"] => (d, showSftp d.sf)
